@@ -164,9 +164,11 @@ def _get_ast_node_variables(node: ast.AST, aliases: Mapping) -> list[Variable]:
 def _get_ast_node_name(node: ast.AST) -> str:
     if isinstance(node, ast.Name):
         return node.id
-    if isinstance(node, ast.Call):
+    if isinstance(node, ast.Call) and not isinstance(node.func, ast.Call):
         return _get_ast_node_name(node.func)
-    if isinstance(node, ast.Attribute):
+    if isinstance(node, ast.Attribute) and isinstance(
+        node.value, (ast.Name, ast.Attribute)
+    ):
         return f"{_get_ast_node_name(node.value)}.{node.attr}"
     raise ValueError(  # pragma: no cover
         f"Unknown AST node type during variable extraction: {type(node)}. "
